@@ -30,5 +30,8 @@ def run(ctx):
         ctx.pipe([h, "direct", "10", "17", "32"], "direct", label="direct-solves-17x32")
     # "any thread count used for assembly": the assembly regions must be race-free, otherwise the matrix depends on the schedule
     ctx.schedule_conflicts(("DirectSolverGive", "DirectSolverTake"))
+    # the coarse direct solver as the SOLVER reaches it (setup() -> Level::initializeDirectSolver -> Level::directSolveInPlace)
+    hs = ctx.build_harness("h_solver")
+    ctx.pipe([hs, "levelops", "direct", "16" if ctx.tier == "quick" else "150"], "direct", label="direct-solve-through-the-solver-object")
     ctx.assumptions += ["'pivots != 0 for the assembled matrix in grid order' is a hypothesis of C04.solve_inverts (it follows from C05 by a principal-minor "
                         "argument that is not formalised); the code's own tiny-pivot exit branch is part of the C16 model"]
